@@ -48,6 +48,7 @@ pub struct Stats {
     pub rate_zero: bool,
     pub liq_vanishes_after_scaling: bool,
     pub skipped_col_too_small: bool,
+    pub foreign_reserve_cells: u64,
 }
 
 fn pow2(n: u32) -> Q {
@@ -129,6 +130,30 @@ pub fn run_case(c: &RCase, st: &mut Stats) -> Result<(), (String, String)> {
     };
     let Some(bits) = price_bits else { return Ok(()) }; // failing closed is always allowed
     st.built = true;
+    // the exchange rate must come from the BANK's reserve: the same (fresh, venue-owned) reserve bytes presented under
+    // another key in the reserve slot, next to the bank's correct price feed, must not yield a price — otherwise the bank
+    // is priced with whatever rate (and freshness) the caller picks
+    {
+        let k_foreign = crate::world::kp("c20b_foreign_reserve", 0);
+        let mut datas2 = [oracle.data.clone(), reserve.data.clone()];
+        let keys2: [Pubkey; 2] = [k0, k_foreign];
+        let mut lamports2 = [1_000_000u64, 1_000_000u64];
+        let (d0, d1) = datas2.split_at_mut(1);
+        let (l0, l1) = lamports2.split_at_mut(1);
+        let ais = vec![
+            AccountInfo::new(&keys2[0], false, false, &mut l0[0], &mut d0[0][..], &owners[0], false, 0),
+            AccountInfo::new(&keys2[1], false, false, &mut l1[0], &mut d1[0][..], &owners[1], false, 0),
+        ];
+        let ais_ref: &[AccountInfo] = unsafe { std::mem::transmute(&ais[..]) };
+        let priced = matches!(catch_unwind(AssertUnwindSafe(|| OraclePriceFeedAdapter::try_from_bank_with_max_age(&bank, ais_ref, &clock, 100))), Ok(Ok(_)));
+        st.foreign_reserve_cells += 1;
+        if priced {
+            return Err((
+                format!("adapter-foreign-reserve-priced:{}", if kamino { "kamino" } else { "solend" }),
+                format!("{:?} bank: the adapter returned a price although the reserve slot held an account that is not the bank's configured reserve (correct price feed next to it)", setup),
+            ));
+        }
+    }
     let got = q_bits(bits);
     st.rate_zero = rate.is_zero();
     st.liq_vanishes_after_scaling = !l_exact.is_zero() && (&l_exact / pow10(d)) < ulp();
@@ -254,6 +279,7 @@ pub fn run(ctx: &Ctx) -> Report {
                 if st.built {
                     rep.label("adapter:price-returned");
                 }
+                rep.add_extra("adapter_foreign_reserve_cells", st.foreign_reserve_cells);
                 if st.skipped_col_too_small {
                     rep.label("adapter:skipped-collateral-below-scaling-quantum");
                 }
